@@ -149,7 +149,7 @@ def run_case(case, ctx):
         fresh_vals = {(g.name, c.name): c[:] for g in tf.groups() for c in g.channels()}
     for ik in INDEX_KINDS:
         ib = index_bytes(ik, idx, rng, other)
-        for own in ('path', 'stream', 'pathlib', 'fileobj'):
+        for own in ('path', 'stream', 'pathlib', 'fileobj', 'rawfileobj'):
             if os.path.exists(ipath):
                 os.remove(ipath)
             util.write_file(path, bad)
@@ -157,7 +157,7 @@ def run_case(case, ctx):
                 util.write_file(ipath, ib)
             elif ib is not None:
                 continue     # an index beside the file is only discovered for paths
-            if own in ('pathlib', 'fileobj') and (case['s'] + len(ik)) % 3:
+            if own in ('pathlib', 'fileobj', 'rawfileobj') and (case['s'] + len(ik) + len(own)) % 3:
                 continue     # sampled: these two ownership kinds triple the work otherwise
             for api in ('read', 'read_metadata', 'open-close', 'with', 'open-history'):
                 ctx.evaluation()
@@ -258,8 +258,8 @@ def one_call(ctx, TdmsFile, api, own, path, bad, info, fresh_vals, rng, ik):
     elif own == 'pathlib':
         import pathlib
         arg = pathlib.Path(path)
-    elif own == 'fileobj':
-        stream = open(path, 'rb')      # the caller's own file object: must be left open by the library, closed by us below
+    elif own in ('fileobj', 'rawfileobj'):
+        stream = open(path, 'rb', buffering=0) if own == 'rawfileobj' else open(path, 'rb')      # the caller's own file object: must be left open by the library, closed by us below
         arg = stream
         OWN_FDS.add(stream.fileno())
     raised = None
@@ -335,7 +335,7 @@ def one_call(ctx, TdmsFile, api, own, path, bad, info, fresh_vals, rng, ik):
         outcome = 'raised:' + type(ex).__name__
         if api in ('read', 'read_metadata') or tf is not None:
             # read/read_metadata raised, or an open()ed file was being closed/used: nothing may stay open
-            keep = (os.path.realpath(path),) if own == 'fileobj' else ()
+            keep = ()
             if api in ('read', 'read_metadata'):
                 scan(ctx, '%s-raised/%s' % (api, own), info, expect_open=keep)
             else:
@@ -355,9 +355,9 @@ def one_call(ctx, TdmsFile, api, own, path, bad, info, fresh_vals, rng, ik):
             fdmon.take_warnings()
     else:
         outcome = 'returned'
-        scan(ctx, '%s-returned/%s' % (api, own), info, expect_open=(os.path.realpath(path),) if own == 'fileobj' else ())
+        scan(ctx, '%s-returned/%s' % (api, own), info)
     opens = fdmon.take_opens()
-    if own == 'fileobj':
+    if own in ('fileobj', 'rawfileobj'):
         opens = [p for p in opens if not p.endswith('f.tdms')] + []      # our own open() of the data file is not the library's
     if own in ('path', 'pathlib'):
         ctx.count('library_open_events', len(opens))
@@ -370,9 +370,18 @@ def one_call(ctx, TdmsFile, api, own, path, bad, info, fresh_vals, rng, ik):
         if stream.closed:
             ctx.violation('caller-stream-closed/%s/%s' % (api, own), dict(info, outcome=outcome))
             OWN_FDS.clear()
-        elif own == 'fileobj':
-            OWN_FDS.discard(stream.fileno())
-            stream.close()
+        elif own in ('fileobj', 'rawfileobj'):
+            # the library may have wrapped the caller's object: it must still be open once every library object is gone
+            tf = None
+            raised = None
+            import gc
+            gc.collect()
+            if stream.closed:
+                ctx.violation('caller-stream-closed/after-library-objects-finalised/%s/%s' % (api, own), dict(info, outcome=outcome))
+                OWN_FDS.clear()
+            else:
+                OWN_FDS.discard(stream.fileno())
+                stream.close()
     if raised is not None or api == 'open-history':
         ctx.distinct((info['corrupt'], outcome, api, own, ik))
     del raised
